@@ -167,6 +167,7 @@ func (e *env) sctx(from *world.Key, to string) (cstate.StateContextI, func()) {
 	ts := chain.CreateTxnMPT(w.CurState, tc)
 	sc := w.Chain.NewStateContext(w.Cur, ts, txn, nil)
 	return sc, func() {
+		w.DirectWrites = true // the block's state is no longer a function of its transactions: no BlockTwin
 		if err := w.CurState.MergeMPTChanges(ts); err != nil {
 			rec.Fatal("merge of a direct state change failed: %v", err)
 		}
